@@ -186,6 +186,8 @@ def failure_kind(orig, keys, r):
       return 'exception:append-beyond-2^53'
     if code in (1, 2) and orig and orig[0] == -INF and -INF in keys:
       return 'existing-neginf'
+    if code == 5 and b is not None and b >= 2.0 ** 1023:
+      return 'exception:ldexp-overflow'
     return 'exception:code%d' % code
   kind, _ = oracle(orig, keys, r[1], r[2])
   if kind == 'placement' and orig and orig[0] == -INF and -INF in keys:
